@@ -260,6 +260,7 @@ def witness_search(prop, seed, outdir, budget_iters):
 
 
 def main():
+    global EVIDENCE_DIR
     import argparse
     ap = argparse.ArgumentParser()
     ap.add_argument('prop')
@@ -271,13 +272,13 @@ def main():
     t_start = time.time()
     if a.replay:
         return do_replay(a.replay)
-    if prop not in ALL_PROPS:
+    if prop not in ALL_PROPS and prop != 'ALL':
         log('unknown property %s' % prop)
         return 2
     os.makedirs(GEN_DIR, exist_ok=True)
     os.makedirs(EVIDENCE_DIR, exist_ok=True)
     modes = ['lenient'] + (['strict'] if prop in STRICT_PROPS else [])
-    if a.tier == 'thorough':
+    if a.tier == 'thorough' or prop == 'ALL':
         modes = ['lenient', 'strict']
     results = {}
     tag = '%s_%d' % (prop, os.getpid())
@@ -317,13 +318,31 @@ def main():
             res = run_verus(out, extra + ['--smt-option', 'smt.random_seed=7'])
             os.environ.pop('VERIF_RLIMIT')
             failures, undecided, compile_errors = classify(res['diags'], lm, out)
-        vac = vacuity_run(mode, prop, tag, force) if not failures and not compile_errors else {'skipped': 'main run has failures'}
+        if prop == 'ALL':
+            vac = {'skipped': 'development sweep (ALL)'}
+        else:
+            vac = vacuity_run(mode, prop, tag, force) if not failures and not compile_errors else {'skipped': 'main run has failures'}
         failures, downgraded = downgrade_uncontracted(failures, report, lm, open(out).read())
         undecided += downgraded
         results[mode] = {'report': report, 'lm': lm, 'res': res, 'failures': failures, 'undecided': undecided,
                          'compile_errors': compile_errors, 'path': out, 'text': open(out).read(), 'vacuity': vac}
-    extra = thorough_extras(prop, seed, results) if a.tier == 'thorough' else None
-    code = finish(prop, a.tier, seed, results, t_start, extra)
+    if prop == 'ALL':
+        # development sweep: one verifier run per mode, every property classified from it (no vacuity twins, no witness
+        # search, evidence to a scratch directory); not registered in MANIFEST.json
+        EVIDENCE_DIR = os.environ.get('VERIF_EVIDENCE_DIR', '/tmp/verif_all_evidence')
+        os.makedirs(EVIDENCE_DIR, exist_ok=True)
+        os.environ['VERIF_NO_WITNESS'] = '1'
+        codes = {}
+        for pr in ALL_PROPS:
+            sub = {m: r for m, r in results.items() if m == 'lenient' or pr in STRICT_PROPS}
+            codes[pr] = finish(pr, 'quick', seed, sub, t_start, None)
+        log('SUMMARY ' + ' '.join('%s=%d' % (k, v) for k, v in codes.items()))
+        code = max(codes.values()) if codes else 2
+        if 1 in codes.values():
+            code = 1
+    else:
+        extra = thorough_extras(prop, seed, results) if a.tier == 'thorough' else None
+        code = finish(prop, a.tier, seed, results, t_start, extra)
     for mode in results:
         for ext in ('', '.report.json', '.linemap.json'):
             try:
@@ -624,7 +643,10 @@ def finish(prop, tier, seed, results, t_start, extra=None):
             seen.add(v['label'])
             safe = re.sub(r'[^A-Za-z0-9_.#@-]', '_', v['label'])
             path = os.path.join(rdir, safe + '.json')
-            witness, note = witness_search(prop, seed or 1, rdir, 3000 if tier == 'quick' else 20000)
+            if os.environ.get('VERIF_NO_WITNESS'):
+                witness, note = None, 'witness search skipped'
+            else:
+                witness, note = witness_search(prop, seed or 1, rdir, 3000 if tier == 'quick' else 20000)
             rep = {'property': prop, 'failed_obligation': v['label'], 'mode': v['mode'],
                    'function': v['failures'][0].get('function'),
                    'verifier_output': [f['rendered'] for f in v['failures']][:3],
